@@ -320,6 +320,9 @@ def defects(rnd, rows, info):
         yield "untokenizable-length", with_row(i, mod(4, "'1")), i
         yield "malformed-length", with_row(i, mod(4, "3...1")), i
         yield "negative-length", with_row(i, mod(4, "-2") if fmt == "fixed" else mod(4, "-2...")), i
+        if fmt != "fixed":
+            # no lower limit, negative upper limit
+            yield "negative-upper-length", with_row(i, mod(4, "...-2")), i
         if fmt == "fixed":
             yield "fixed-without-length", with_row(i, mod(4, "")), i
             yield "fixed-length-range", with_row(i, mod(4, "1...5")), i
